@@ -87,6 +87,88 @@ class Sib:
                  a.result, b.result, b.fi, hyp, frame=a.frame,
                  what="hypothesis walker_up == walker_dn, equal reference strings")
 
+    def multislater_reference_pairing(self):
+        """PAIR-1: overlap = overlap_0 * sum of Wick ratios; the ratios come from the Green's function of the
+        reference determinant, so overlap_0 and the Green's function must select the same occupied rows of the
+        same walker block, and block s must be selected with ref_det[s] / nelec[s]."""
+        from ..symex import func_name, strip_wrappers, subterms
+        for meth, blocks in (("_calc_overlap", {"walker_up": 0, "walker_dn": 1}), ("_calc_overlap_restricted", {"walker": 0})):
+            e = self.E("multislater", meth)
+            sel: Dict[str, Dict[str, set]] = {}
+            spin_bad = []
+            for x in subterms(e.result):
+                if x.op == "call" and (func_name(x) or "").split(".")[-1] in ("det", "inv"):
+                    kind = (func_name(x) or "").split(".")[-1]
+                    a = strip_wrappers(x.args[1]) if len(x.args) > 1 else None
+                    if a is None or a.op != "getitem" or a.args[0].op != "sym" or a.args[0].args[0] not in blocks:
+                        continue
+                    w = a.args[0].args[0]
+                    idx = a.args[1].args[0] if a.args[1].op == "tuple" else a.args[1]
+                    sel.setdefault(w, {}).setdefault(kind, set()).add(idx)
+                    if meth == "_calc_overlap":
+                        s_ = blocks[w]
+                        refs = {y.args[1].args[0] for y in subterms(idx) if y.op == "getitem" and y.args[1].op == "const"
+                                and y.args[0].op == "getitem" and y.args[0].args[1].op == "const"
+                                and y.args[0].args[1].args[0] == "ref_det"}
+                        nel = {y.args[1].args[0] for y in subterms(idx) if y.op == "getitem" and y.args[1].op == "const"
+                               and y.args[0].op == "attr" and y.args[0].args[1] == "nelec"}
+                        if refs - {s_} or nel - {s_}:
+                            spin_bad.append(f"{kind}({w}[...]) selects with ref_det{sorted(refs)} / nelec{sorted(nel)}")
+            ok = bool(sel) and all(v.get("det") and v.get("det") == v.get("inv") for v in sel.values()) and \
+                set(sel) == set(blocks)
+            self.ctx.ob("PAIR-1", f"multislater.{meth}: reference overlap and Green's function select the same occupied rows",
+                        ok, "; ".join(f"{w}: det {len(v.get('det', ()))} / inv {len(v.get('inv', ()))} selector(s)"
+                                      + ("" if v.get("det") == v.get("inv") else " DIFFERENT") for w, v in sorted(sel.items()))
+                        or "no det/inv of selected walker rows found", e.fi)
+            if meth == "_calc_overlap":
+                self.ctx.ob("PAIR-1", "multislater._calc_overlap: walker block s is selected with ref_det[s] and nelec[s]",
+                            not spin_bad and bool(sel), "; ".join(spin_bad) or "spin tags agree", e.fi)
+
+    def auto_helper_mirrors(self, meths):
+        """SYM-1 / SIB-2 on the AD helpers of wave_function_auto: the rotated down-spin walker handed to _calc_overlap
+        is the mirror image (walker_up -> walker_dn, h1[0] -> h1[1]) of the rotated up-spin walker, and the restricted
+        helper rotates its single block the same way."""
+        from ..symex import call_parts, strip_wrappers
+        plain = Evaluator(self.p)     # no inlining: the final self._calc_overlap(...) call stays a call term
+        saved, self.ev = self.ev, plain
+        try:
+            self._auto_helper_mirrors(meths, plain)
+        finally:
+            self.ev = saved
+
+    def _auto_helper_mirrors(self, meths, plain):
+        from ..symex import call_parts, strip_wrappers
+        for meth in meths:
+            e = evaluate(self.p, plain, W + "wave_function_auto", meth)
+            r = strip_wrappers(e.result) if e.result is not None else None
+            if r is None:
+                raise AnalysisError(f"wave_function_auto.{meth}: no value returned")
+            if not (r.op == "call" and r.args[0].op == "attr" and r.args[0].args[1] == "_calc_overlap"):
+                raise AnalysisError(f"wave_function_auto.{meth}: does not end in self._calc_overlap(up, dn, wave_data)")
+            pos = call_parts(r)[1]
+            if len(pos) < 2:
+                raise AnalysisError(f"wave_function_auto.{meth}: unmodelled _calc_overlap call")
+            h1 = sym("h1")
+            sw = swap_map([(sym("walker_up"), sym("walker_dn")), (getitem(h1, const(0)), getitem(h1, const(1)))])
+            self.cmp("SYM-1", f"wave_function_auto.{meth}: the rotated down-spin walker mirrors the rotated up-spin one",
+                     pos[0], pos[1], e.fi, None, hyp_b=sw, what="up-spin argument with up <-> dn == down-spin argument")
+            er = evaluate(self.p, plain, W + "wave_function_auto", meth + "_restricted")
+            rr = strip_wrappers(er.result)
+            if not (rr.op == "call" and rr.args[0].op == "attr" and rr.args[0].args[1] == "_calc_overlap_restricted"):
+                raise AnalysisError(f"wave_function_auto.{meth}_restricted: does not end in _calc_overlap_restricted")
+            hyp_u = {sym("walker_up"): sym("walker"), getitem(h1, const(0)): h1}
+            self.cmp("SIB-2", f"wave_function_auto.{meth}: same rotation as {meth}_restricted",
+                     call_parts(rr)[1][0], pos[0], e.fi, None, hyp_b=hyp_u,
+                     what="walker_up -> walker, h1[0] -> h1")
+
+    def noci_trans_rdm1_symmetry(self):
+        e = self.E("noci", "_get_trans_rdm1_single_det")
+        sw = swap_map([(sym("sd_0_up"), sym("sd_0_dn")), (sym("sd_1_up"), sym("sd_1_dn")), (nelec(0), nelec(1))])
+        r = e.result
+        self.cmp("SYM-1", "noci._get_trans_rdm1_single_det: the down-spin transition density mirrors the up-spin one",
+                 getitem(r, const(0)), getitem(r, const(1)), e.fi, None, hyp_b=sw,
+                 what="component 0 with up <-> dn == component 1")
+
     # ------------------------------------------------------ CI flavours (C01)
     def ci_flavours_overlap(self):
         a = self.E("cisd", "_calc_overlap_restricted")
